@@ -562,3 +562,19 @@ Definition seenatt (c : N) (s : srvatt) : list N :=
 (* ---------- specification vocabulary for isolation ---------- *)
 Definition ev_conn (e : sev) : N := match e with Connect c => c | Data c _ _ => c | Close c => c end.
 Definition without (c : N) (evs : list sev) : list sev := filter (fun e => negb (ev_conn e =? c)) evs.
+
+(* the side condition of isolation on the JT808 server, computed along the run: whenever a connection
+   other than c is served, it has already joined the registry, or c holds no key (then the registry
+   gives it the same answer with and without c).  C11 is the property about the registry itself. *)
+Definition holds_no_key (c : N) (s : srv808) : bool :=
+  match cfind c (v_conns s) with Some k => match k_key k with None => true | Some _ => false end | None => true end.
+Definition joined (c : N) (s : srv808) : bool :=
+  match cfind c (v_conns s) with Some k => match k_key k with None => false | Some _ => true end | None => false end.
+Fixpoint iso_ok (parse_all : bool) (c : N) (s : srv808) (evs : list sev) : bool :=
+  match evs with
+  | [] => true
+  | e :: t =>
+    ((ev_conn e =? c) || joined (ev_conn e) s || holds_no_key c s ||
+     match e with Data _ _ _ => false | _ => true end) &&
+    iso_ok parse_all c (step808 parse_all s e) t
+  end.
